@@ -22,7 +22,9 @@ func (f *CSVFormatter) Write(result interface{}) error {
 		return err
 	}
 
-	f.writeLine(columns)
+	if err := f.writeLine(columns); err != nil {
+		return err
+	}
 
 	v := reflect.ValueOf(result)
 	if v.Kind() == reflect.Slice {
@@ -34,35 +36,48 @@ func (f *CSVFormatter) Write(result interface{}) error {
 				line = append(line, fmt.Sprintf("%v", value[name]))
 			}
 
-			f.writeLine(line)
+			if err := f.writeLine(line); err != nil {
+				return err
+			}
 		}
 	}
 
 	return nil
 }
 
-func (f *CSVFormatter) writeLine(fields []string) {
+// writeLine returns the error of the writer, if any. A result that could not
+// be written must not look like one that was.
+func (f *CSVFormatter) writeLine(fields []string) error {
 	for i := 0; i < len(fields); i++ {
 		if i > 0 {
-			fmt.Fprintf(f.Writer, ",")
+			if _, err := fmt.Fprintf(f.Writer, ","); err != nil {
+				return err
+			}
 		}
 
-		f.writeValue(fields[i])
+		if err := f.writeValue(fields[i]); err != nil {
+			return err
+		}
 	}
 
-	fmt.Fprintf(f.Writer, "\n")
+	_, err := fmt.Fprintf(f.Writer, "\n")
+
+	return err
 }
 
-func (f *CSVFormatter) writeValue(s string) {
+func (f *CSVFormatter) writeValue(s string) error {
 	s = strings.Replace(s, `"`, `""`, -1)
 	commaIndex := strings.Index(s, ",")
 	quoteIndex := strings.Index(s, `"`)
 
-	if commaIndex < 0 && quoteIndex < 0 {
-		fmt.Fprintf(f.Writer, "%s", s)
-	} else {
-		fmt.Fprintf(f.Writer, `"%s"`, s)
+	format := "%s"
+	if commaIndex >= 0 || quoteIndex >= 0 {
+		format = `"%s"`
 	}
+
+	_, err := fmt.Fprintf(f.Writer, format, s)
+
+	return err
 }
 
 func (f *CSVFormatter) prepareLine(line interface{}) map[string]interface{} {
